@@ -47,8 +47,8 @@ for _pid in ("C02", "C03", "C09"):
         trusted=_PROG_TRUSTED, assumptions=_PROG_ASSUME,
         explanation="theorems over the deep-embedded goal language and the stream/thunk search model; tie: cell traces of generated goal programs run with the real combinators",
     )
-PROPS["C09"]["gens"] = [gens.gen_mini]
-PROPS["C09"]["model"] = "Stream.v, Comb.v (conj+/disj+/conde = gen/MiniGen.v, translated from mini/disj.go, conj.go, conde.go on every run; MiniGenSpec.v)"
+PROPS["C09"]["gens"] = [gens.gen_mini, gens.gen_loops]
+PROPS["C09"]["model"] = "Stream.v, Comb.v (conj+/disj+/conde = gen/MiniGen.v, translated from mini/disj.go, conj.go, conde.go on every run; MiniGenSpec.v; IfThenElseO/OnceO and their loops = gen/LoopsGen.v, translated from mini/ifthenelse.go, once.go on every run; StreamLoopsSpec.v)"
 PROPS["C03"]["gens"] = [gens.gen_stream]
 PROPS["C03"]["model"] = "Stream.v (take = gen/StreamGen.v, translated from micro/stream.go on every run; StreamGenSpec.v)"
 
